@@ -130,6 +130,19 @@ func Discharge(o *Obligation, dir string, quickS, slowS int) *Result {
 		cancel()
 		r.TimeS += maxd
 	}
+	if o.ExpectSat && o.HasPre && r.Answer == "unsat" {
+		// unreachable after the callee's assumed clauses: vacuous only if it was reachable before them
+		text0 := o.Script.Render(o.PrePrefix, o.PreGoal, nil)
+		f0 := fname + ".pre.smt2"
+		os.WriteFile(f0, []byte(text0), 0o644)
+		a0, _, d0 := runSolver(context.Background(), solvers[0], quickS, f0)
+		r.TimeS += d0
+		os.Remove(f0)
+		if a0 == "unsat" {
+			r.Status, r.Answer = "discharged", "dead-path"
+			return r
+		}
+	}
 	switch {
 	case r.Answer == want:
 		r.Status = "discharged"
